@@ -152,6 +152,8 @@ def make_op(o, prog, regs, numeric=None):
 
     name = o["op"]
     kw = dict(o.get("kw", {}))
+    if name == "GraphEmbed":
+        return ops.GraphEmbed(np.array([[o["aval"]]]), **kw)
     if name in ("Interferometer", "GaussianTransform", "Gaussian"):
         n_ = len(o["m"])
         if name == "Interferometer":
